@@ -109,6 +109,20 @@ func (m *ModelState) Apply(o *Op) []bool {
 			out[0] = true
 			m.W[e.Acct].Slot = int64(e.PSlot)
 		}
+	case "gen", "multi":
+		// Generic signing keeps no state; a request naming one key twice is refused as a whole; slashable
+		// domain types and (without an administrator address) voluntary exits are refused per position.
+		seen := map[int]bool{}
+		for _, e := range o.Entries {
+			if seen[e.Acct] {
+				return out
+			}
+			seen[e.Acct] = true
+		}
+		for i := range o.Entries {
+			dt := domType(o.Entries[i].Domain)
+			out[i] = len(o.Entries[i].Domain) == 32 && dt != DomAttester && dt != DomProposer && dt != DomExit
+		}
 	}
 	return out
 }
